@@ -23,6 +23,7 @@ META["text"] += " (R7, N) Contest's constructor stores risk_limit, assertions, w
 META["text"] += ' (R8 = C06.R3) the test is run with the bound installed from the same mvrs_to_data call as its data.'
 META["text"] += ' R8 also borrows C06.R4: the data of an assertion are the pairs its filter keeps, no others.'
 META["text"] += " R4 also: the running maximum is NumPy's (np.max / np.maximum), under which a p-value that is not a number keeps the contest incomplete."
+META["text"] += ' R1 also: the data functions keep no state between calls. R8 also borrows C07.R3 (the threshold is the sample number of the n_c-th card itself).'
 
 REL = "shangrla/core/Audit.py"
 
